@@ -747,8 +747,9 @@ def resolveNode (d : DS) (w : World Val) : PNode → Borrow.Node
     let found : Bool :=
       match d.getH var with
       | some h =>
-        if h.kind.isDirect then false else
-        (match w.contains d.cfg (routeArch d.ids a ⟨.any, a, h.key⟩) false with
+        -- an entity variable, or a dynamically typed DIRECT key (`borrow(EntityDirectAny)`)
+        let dir := h.kind.isDirect
+        (match w.contains d.cfg (routeArch d.ids a ⟨kindOf false dir, a, h.key⟩) dir with
          | .ok (some _) _ => true
          | _ => false)
       | none => false
@@ -757,12 +758,12 @@ def resolveNode (d : DS) (w : World Val) : PNode → Borrow.Node
     let gs : Option (List (Borrow.CellId × Bool)) :=
       match d.getH var, d.queries.find? (·.1 == qn) with
       | some h, some (_, q) =>
-        if h.kind.isDirect then none else
-        (match routeWorld d.cfg d.ids ⟨.any, h.a, h.key⟩ with
+        let dir := h.kind.isDirect
+        (match routeWorld d.cfg d.ids ⟨kindOf false dir, h.a, h.key⟩ with
          | .arch a k =>
            (match q.find? (fun qa => qa.a == a), w.archs[a]? with
             | some qa, some s =>
-              (match storageResolve d.cfg s false k with
+              (match storageResolve d.cfg s dir k with
                | .ok (some _) _ => some (guardsOf a qa.params)
                | _ => none)
             | _, _ => none)
